@@ -21,7 +21,10 @@ Inductive body :=
 | BAny (glob : nat) (attrs : list nat)        (* return <glob>([self.<i>, ...]) *)
 | BHash (glob : nat) (tup : bool) (attrs : list nat)   (* return <glob>((self.<i>, ...)); with ONE field the template's "((self._0))" is no
                                                          tuple but the field itself (tup = false): such a structure hashes like its field *)
-| BInit (stores : list (nat * nat * nat)).    (* self.<name> = <var> if <var> is not None else <const>, in this order: (var, const, name) *)
+| BInit (stores : list (nat * nat * nat))     (* self.<name> = <var> if <var> is not None else <const>, in this order: (var, const, name) *)
+| BInitU (obj sa : nat) (stores : list (nat * nat * nat)).
+                                              (* unions: <obj>.<sa>(self, <const naming the member>, <var> if <var> is not None else <const>):
+                                                 (var, name const, default const); obj / sa index the names `object` / `__setattr__` *)
 
 Section Methods.
 Variable V : Type.
@@ -30,7 +33,7 @@ Variable truthy : V -> bool.
 Variable vhash : V -> result Z.       (* hash(x); Err EType for unhashable values (lists) *)
 Variable thash : list Z -> Z.         (* the tuple hash, a function of the elements' hashes *)
 
-Inductive cst := CNone | CInt (i : nat) | CVal (v : V).
+Inductive cst := CNone | CInt (i : nat) | CVal (v : V) | CStr (s : string).
 Record code := mkCode { co_names : list string; co_consts : list cst; co_varnames : list string; co_body : body }.
 
 (* ---- the templates (the strings the decorated functions return, read as code objects) ---- *)
@@ -44,6 +47,11 @@ Definition make_init (names : list string) : code :=
   let n := length names in
   mkCode names (CNone :: map CInt (seq 0 n)) ("self" :: names) (BInit (map (fun i => (S i, S i, i)) (seq 0 n))).
 
+Definition make_union_init (names : list string) : code :=
+  let n := length names in
+  mkCode ["object"; "__setattr__"] (CNone :: flat_map (fun '(i, nm) => [CStr nm; CInt i]) (combine (seq 0 n) names)) ("self" :: names)
+         (BInitU 0 1 (map (fun i => (S i, S (2 * i), S (S (2 * i)))) (seq 0 n))).
+
 (* _codegen: the template for a field count *)
 Definition template (mk : list string -> code) (n : nat) : code := mk (placeholders n).
 
@@ -56,6 +64,11 @@ Definition generate_hash (fields : list string) : code := patch_attributes (temp
 Definition generate_init (fields : list (string * V)) : code :=
   let t := template make_init (length fields) in
   mkCode (map fst fields) (CNone :: map (fun f => CVal (snd f)) fields) ("self" :: map fst fields) (co_body t).
+
+(* _generate_union__init__: the member names live in the CONSTANTS here (they are string arguments of object.__setattr__) *)
+Definition generate_union_init (fields : list (string * V)) : code :=
+  let t := template make_union_init (length fields) in
+  mkCode (co_names t) (CNone :: flat_map (fun f => [CStr (fst f); CVal (snd f)]) fields) ("self" :: map fst fields) (co_body t).
 
 (* ---- instances and the meaning of a code object ---- *)
 Record inst := mkInst { i_cls : nat; i_attrs : list (string * V) }.
@@ -120,6 +133,19 @@ Definition run_init (c : code) (args : list (option V)) : result (list (string *
       | Some v => Ok (set_attr at_ nm v)
       | None => match nth_error (co_consts c) ci with Some (CVal d) => Ok (set_attr at_ nm d) | _ => Err EUnsupported end
       end end) stores (Ok [])
+  | BInitU o sa stores =>
+    do on <- name_at c o; do san <- name_at c sa;
+    if negb (String.eqb on "object" && String.eqb san "__setattr__") then Err EUnsupported else
+    fold_left (fun acc '(vi, ki, ci) => do at_ <- acc;
+      match vi with 0 => Err EUnsupported | S ai =>
+      match nth_error (co_consts c) ki with
+      | Some (CStr nm) =>
+        match nth ai args None with
+        | Some v => Ok (set_attr at_ nm v)
+        | None => match nth_error (co_consts c) ci with Some (CVal d) => Ok (set_attr at_ nm d) | _ => Err EUnsupported end
+        end
+      | _ => Err EUnsupported
+      end end) stores (Ok [])
   | _ => Err EUnsupported
   end.
 
@@ -132,17 +158,18 @@ Definition body_eqb (a b : body) : bool :=
   | BAny g k, BAny g' k' => Nat.eqb g g' && list_eqb Nat.eqb k k'
   | BHash g t k, BHash g' t' k' => Nat.eqb g g' && Bool.eqb t t' && list_eqb Nat.eqb k k'
   | BInit s, BInit s' => list_eqb triple_eqb s s'
+  | BInitU o a s, BInitU o' a' s' => Nat.eqb o o' && Nat.eqb a a' && list_eqb triple_eqb s s'
   | _, _ => false
   end.
 Definition cst_eqb (a b : cst) : bool :=
-  match a, b with CNone, CNone => true | CInt i, CInt j => Nat.eqb i j | CVal v, CVal w => veqb v w | _, _ => false end.
+  match a, b with CNone, CNone => true | CInt i, CInt j => Nat.eqb i j | CVal v, CVal w => veqb v w | CStr s, CStr t => String.eqb s t | _, _ => false end.
 Definition code_eqb (a b : code) : bool :=
   list_eqb String.eqb (co_names a) (co_names b) && list_eqb cst_eqb (co_consts a) (co_consts b)
   && list_eqb String.eqb (co_varnames a) (co_varnames b) && body_eqb (co_body a) (co_body b).
 End Methods.
 
 Arguments mkCode {V}. Arguments co_names {V}. Arguments co_consts {V}. Arguments co_varnames {V}. Arguments co_body {V}.
-Arguments CNone {V}. Arguments CInt {V}. Arguments CVal {V}.
+Arguments CNone {V}. Arguments CInt {V}. Arguments CVal {V}. Arguments CStr {V}.
 Arguments mkInst {V}. Arguments i_cls {V}. Arguments i_attrs {V}.
 
 (* the instance used by the correspondence: integers (and byte strings / floats mapped to integers injectively by the harness) *)
